@@ -16,6 +16,63 @@ MASKABLE = ["NullableDnaString", "NullableIntegerColumn", "NullableStringColumn"
             "SequenceOfStrings", "NullableYesOrNo", "VerificationStatus", "EntrezGeneId", "NullableUUIDColumn"]
 
 
+# ---- aiming the generators at source that differs from the pinned tree (fw.source_changes)
+FOCUS = set()      # source class names (of column_types.py) to favour
+
+
+def set_focus(changed):
+    """changed: ["column_types.py:Class.method", ...]; favour those classes and every class deriving from them"""
+    import ast
+    import os
+    names = {k.split(":", 1)[1].split(".")[0] for k in changed if k.startswith(("column_types.py:", "column.py:"))}
+    FOCUS.clear()
+    if not names:
+        return
+    repo = os.environ.get("VERIF_REPO", "/repo")
+    bases = {}
+    for fn in ("column.py", "column_types.py"):
+        try:
+            tree = ast.parse(open(os.path.join(repo, "maflib", fn)).read())
+        except (OSError, SyntaxError):
+            continue
+        for node in tree.body:
+            if isinstance(node, ast.ClassDef):
+                bases[node.name] = [b.id for b in node.bases if isinstance(b, ast.Name)]
+    grew = True
+    hit = set(names)
+    while grew:
+        grew = False
+        for c, bs in bases.items():
+            if c not in hit and any(b in hit for b in bs):
+                hit.add(c)
+                grew = True
+    FOCUS.update(hit)
+
+
+def _focus_classes():
+    return [c for c in SRC_CLASSES if c in FOCUS]
+
+
+def _spec_in_focus(spec):
+    if spec[0] == "src":
+        return spec[1] in FOCUS
+    return _spec_in_focus(spec[1]) or _spec_in_focus(spec[2])
+
+
+def focus_columns(cols):
+    """positions of a pinned layout whose class is in focus"""
+    if not FOCUS:
+        return []
+    out = []
+    for j, (_, d) in enumerate(cols):
+        try:
+            if _spec_in_focus(_spec_of_descr(d)):
+                out.append(j)
+        except KeyError:
+            pass
+    return out
+
+
 def descr_of_spec(spec):
     if spec[0] == "src":
         return SP.spec()["classes"].get(spec[1])
@@ -159,7 +216,12 @@ def some_text(rng, d, stream):
 # ------------------------------------------------------------------ cases
 def gen_field(rng):
     r = rng.random()
-    if r < 0.8:
+    fc = _focus_classes()
+    if fc and rng.random() < 0.5:
+        spec = ["src", rng.choice(fc)]
+        if "RequireNullValue" in FOCUS and spec[1] in MASKABLE and rng.random() < 0.5:
+            spec = ["mix", ["src", "RequireNullValue"], spec]
+    elif r < 0.8:
         spec = ["src", rng.choice(SRC_CLASSES)]
     else:
         spec = ["mix", ["src", "RequireNullValue"], ["src", rng.choice(MASKABLE)]]
@@ -176,6 +238,9 @@ def gen_line(rng, modes=True):
     hit = []
     if stream in ("defect1", "boundary1", "adversarial1"):
         i = rng.choice([0, len(cols) - 1, rng.randrange(len(cols)), rng.randrange(len(cols))])
+        fcols = focus_columns(cols)
+        if fcols and rng.random() < 0.7:
+            i = rng.choice(fcols)
         kind = stream[:-1]
         fields[i] = some_text(rng, cols[i][1], kind)
         hit = [i]
@@ -636,6 +701,9 @@ def gen_write(rng, annots=None, strict_share=0.8):
     def pick_col():
         """a column position: first/last/uniform, or (half of the time) stratified by descriptor kind so that the
         kinds with one or two columns in a layout (strand, bool, canonical, entrez, uuid) are perturbed as often as text"""
+        fcols = focus_columns(cols)
+        if fcols and rng.random() < 0.6:
+            return rng.choice(fcols)
         if rng.random() < 0.5:
             return rng.choice([0, len(cols) - 1, rng.randrange(len(cols))])
         by = {}
